@@ -180,13 +180,15 @@ SPECS = {
         ] + [
             {"py": "LevyTriplet.set_representation", "coq": "set_representation_gen", "pyargs": ["representation"],
              "emitter": "py2coq_c10set:emit_set_representation",
+             "defaults_of": {"LevyTriplet.__init__": {"a": "0", "representation": "LevyRepresentation.ONEONE"}},
              "methods": {m: (m, f"{m}_raises") for m in ("canonical_drift", "zero_drift", "center_drift", "tilde_drift")}},
         ],
     },
     "GenC10Exp": {
         "file": "rpylib/model/levymodel/exponentialoflevymodel.py", "dom": "R",
+        "class_decorators": {"ExponentialOfLevyModel": ["MomentsDecorator()"]},
         "funcs": [
-            {"py": "ExponentialOfLevyModel.drift", "coq": "exp_model_drift", "pyargs": ["t", "x"], "args": [("r", R), ("d", R), ("omega", R)], "ret": R,
+            {"py": "ExponentialOfLevyModel.drift", "coq": "exp_model_drift", "pyargs": ["t", "x"], "defaults": {"t": "0", "x": "0"}, "args": [("r", R), ("d", R), ("omega", R)], "ret": R,
              "attrs": {"self.r": "r", "self.d": "d", "self.omega": "omega"}},
         ],
     },
